@@ -500,8 +500,11 @@ func marshalFlowAt(g *Gen, fr fnRef, out map[string]map[string]bool, guards guar
 	gstack := append([]guardRec(nil), prefix...) // enclosing conditions of the statement being walked
 	mentions := func(e ast.Node) []string { return setList(recvFieldsIn(g, e, recv, taint)) }
 	// helper methods of the same struct called on the receiver: walked in place, one level deep
+	// (an element row — explicit `recv`, e.g. the loop variable `v` of the owner's Marshal — follows
+	// the owner's helpers too, looking for the same variable name there)
+	self := funcRecv(fd)
 	follow := func(n ast.Node) {
-		if depth > 0 || fr.recv != "" || n == nil {
+		if depth > 0 || n == nil {
 			return
 		}
 		typ := fr.fn
@@ -516,7 +519,7 @@ func marshalFlowAt(g *Gen, fr fnRef, out map[string]map[string]bool, guards guar
 				return true
 			}
 			se, ok := call.Fun.(*ast.SelectorExpr)
-			if !ok || g.Src(se.X) != recv {
+			if !ok || g.Src(se.X) != self {
 				return true
 			}
 			callee := typ + "." + se.Sel.Name
@@ -524,7 +527,7 @@ func marshalFlowAt(g *Gen, fr fnRef, out map[string]map[string]bool, guards guar
 				return true
 			}
 			if _, err := g.Func(fr.file, callee); err == nil {
-				_ = marshalFlowAt(g, fnRef{file: fr.file, fn: callee}, out, guards, gstack, depth+1)
+				_ = marshalFlowAt(g, fnRef{file: fr.file, fn: callee, recv: fr.recv}, out, guards, gstack, depth+1)
 			}
 			return true
 		})
@@ -1043,20 +1046,25 @@ func unmarshalFlowAt(g *Gen, fr fnRef, tyName string, fields [][2]string, out ma
 	var walk func(stmts []ast.Stmt, ctx map[string]bool)
 	gstack := append([]guardRec(nil), prefix...)
 	mentions := func(e ast.Node) []string { return setList(pbNames(g, e, pbVars)) }
+	self := funcRecv(fd)
 	follow := func(call *ast.CallExpr) {
-		if depth > 0 || fr.recv != "" || fr.lit != "" {
+		if depth > 0 {
 			return
 		}
 		se, ok := call.Fun.(*ast.SelectorExpr)
-		if !ok || g.Src(se.X) != recv {
+		if !ok || g.Src(se.X) != self {
 			return
 		}
-		callee := tyName + "." + se.Sel.Name
+		owner := tyName
+		if i := strings.IndexByte(fr.fn, '.'); i >= 0 {
+			owner = fr.fn[:i]
+		}
+		callee := owner + "." + se.Sel.Name
 		if callee == fr.fn {
 			return
 		}
 		if _, err := g.Func(fr.file, callee); err == nil {
-			_ = unmarshalFlowAt(g, fnRef{file: fr.file, fn: callee}, tyName, fields, out, guards, gstack, depth+1)
+			_ = unmarshalFlowAt(g, fnRef{file: fr.file, fn: callee, recv: fr.recv, lit: fr.lit}, tyName, fields, out, guards, gstack, depth+1)
 		}
 	}
 	rec := func(f string, names map[string]bool, ctx map[string]bool) {
